@@ -86,10 +86,12 @@ def histories(rng, tier):
 
 def main(ctx):
     rng = random.Random(ctx.seed * 77 + 20)
-    gen = {"CookieMC_a": '---- MODULE CookieMC_a ----\nEXTENDS CookieMC\nDomainsV == {<<"x","a">>, <<"a">>, <<"b","x","a">>}\n'
-           'HostsV == {<<"x","a">>, <<"b","x","a">>, <<"bx","a">>, <<"xx","a">>, <<"a">>}\n====\n'}
+    doms = '{<<"x","a">>, <<"a">>, <<"b","x","a">>}' if ctx.tier == "quick" else '{<<"x","a">>, <<"a">>, <<"b","x","a">>, <<"xx","a">>}'
+    hosts = '{<<"x","a">>, <<"b","x","a">>, <<"bx","a">>, <<"xx","a">>, <<"a">>}' if ctx.tier == "quick" else \
+        '{<<"x","a">>, <<"b","x","a">>, <<"bx","a">>, <<"xx","a">>, <<"a">>, <<"c","b","x","a">>, <<"a","x">>}'
+    gen = {"CookieMC_a": '---- MODULE CookieMC_a ----\nEXTENDS CookieMC\nDomainsV == %s\nHostsV == %s\n====\n' % (doms, hosts)}
     invs = ["LatestWins", "OnePerName", "NoDomainNotKept", "NeverOutsideDomain", "ExactlyCovered"]
-    cfg = "INIT Init\nNEXT Next\nCONSTANTS\n Domains <- DomainsV\n Hosts <- HostsV\n MaxSteps = %d\n" % (3 if ctx.tier == "quick" else 4)
+    cfg = "INIT Init\nNEXT Next\nCONSTANTS\n Domains <- DomainsV\n Hosts <- HostsV\n MaxSteps = %d\n" % 3     # histories are a tree: 120^3 (quick) / 210^3 (thorough) states
     r = tlc.run("CookieMC_a", cfg + "".join("INVARIANT %s\n" % i for i in invs), "c20_mc", gen=gen, timeout=3000)
     ctx.add_tlc(r, "CookieMC: all histories of handshakes up to the bound")
     if r.violated:
